@@ -20,11 +20,11 @@ EXPLANATION = (
     "encode(header), then the query, then the body, in that order on every path, empty payloads being the only thing that may "
     "be skipped; the in-place branch of into_wire_bytes is decided on byte regions: resize(total), body moved to [48+q, total), "
     "header to [0,48), query to [48,48+q), under capacity >= total. (length-formula) every store to Header.length is "
-    "48 + query_length + body_length of the same header and every store to query_length/body_length is the length of the bytes "
+    "48 + query_length + body_length of the same header (decided on flow-sensitive affine forms of the values last stored, at the last store on each path) and every store to query_length/body_length is the length of the bytes "
     "emitted as query/body (or the declared body_len parameter). (decode-is-lossless) every field of decode's Ok value is the "
     "unmodified from_le_bytes of its bytes (no mask, no narrowing), and decode's rejections are exactly {fewer than 48 bytes, "
     "spec != 0x1507, length != 48+q+b}: a new rejection (e.g. of reserved bits or unknown format codes) is reported. The rules "
-    "are value-independent, so they hold for all field values and capacity relations. Not decided: what the OS / tungstenite "
+    "are value-independent, so they hold for all field values and capacity relations. (stream-fills-frame, shared with C02) the read side: a frame read from a stream into a reusable buffer leaves the buffer exactly the frame (len == 48+q+b, filled by read_exact). Not decided: what the OS / tungstenite "
     "does with the bytes afterwards."
 )
 ASSUMPTIONS = ["to_le_bytes/from_le_bytes are inverse; Vec::extend_from_slice/append/copy_within/copy_from_slice have std semantics",
@@ -219,6 +219,12 @@ def run(facts, R):
     decode_rejections(facts, R)
     emission(facts, R)
     length_formula(facts, R)
+    # the read side of the round trip: a frame read from a stream is exactly the frame (shared with C02)
+    from rules import C02 as _c02
+    cx = _c02.Ctx(facts, R)
+    _c02.derive_summaries(cx)
+    _c02.derive_decode_summary(cx)
+    _c02.stream_fills_frame(cx, facts, R)
 
 
 def decode_rejections(facts, R):
